@@ -147,6 +147,7 @@ Next == /\ l <= Len(Trace) /\ l' = l + 1
                cur == IF e.first THEN [ok |-> TRUE, raw |-> e.raw0] ELSE st IN
            IF ~cur.ok THEN st' = Dead
            ELSE IF e.panic # "" THEN Report(l, "panic") /\ st' = Dead
+           ELSE IF ~e.bystander_same THEN Report(l, "another-signal-changed-by-a-call-on-this-one") /\ st' = Dead
            ELSE IF e.op = "set" THEN Report(l, SetVerdict(e, cur.raw)) /\ st' = cur
            ELSE IF e.op = "encode" THEN Report(l, EncodeVerdict(e, cur.raw)) /\ st' = [ok |-> TRUE, raw |-> e.bytes]
            ELSE Report(l, "harness-unknown-op") /\ st' = Dead
